@@ -137,7 +137,7 @@ def validate_trace(prop, module, cfg, trace, odir, timeout=1500):
     r = subprocess.run(cmd, shell=True, capture_output=True, text=True, env=e)
     shutil.rmtree(meta, ignore_errors=True)
     open(os.path.join(odir, "tlc-trace.log"), "w").write(r.stdout[-200000:])
-    viol = re.findall(r'"TRACE-VIOLATION (C\d+|[A-Z]+): (line \d+): ([^"]*)"', r.stdout)
+    viol = re.findall(r'"TRACE-VIOLATION ([C\d,]+|[A-Z]+): (line \d+): ([^"]*)"', r.stdout)
     m = re.search(r'<<"TRACE-SUMMARY", (\d+), (\d+), (\d+)>>', r.stdout)
     tl = vlib.parse_tlc_log(r.stdout)
     accepted = tl["ok"] and "Postcondition" not in r.stdout
@@ -158,6 +158,8 @@ def trace_stage(prop, name, recorder, rec_args, module, cfg, memprop="C01"):
         # the recorder died while driving the library: sanitizer report / signal / watchdog
         vf = os.path.join(odir, "viol-recorder.txt")
         open(vf, "w").write("# property=%s\n# recorder died (exit %d) while driving the real library\n%s\n%s\n" % (memprop, r.returncode, cmdline, r.stderr[-3000:]))
+        if r.returncode in (44, 124):
+            memprop = "C16"          # watchdog: a call did not return
         if memprop == prop:
             print("VIOLATION property=%s replay=%s" % (memprop, vf)); nviol += 1
         else:
@@ -168,7 +170,9 @@ def trace_stage(prop, name, recorder, rec_args, module, cfg, memprop="C01"):
     viol, summ, tl = validate_trace(prop, module, cfg, trace, odir)
     for p, line, what in viol:
         ln = int(line.split()[1])
-        vf = os.path.join(odir, "viol-%s.ndjson" % p)
+        own = prop in p.split(",")
+        if own: p = prop
+        vf = os.path.join(odir, "viol-%s.ndjson" % p.replace(",", "-"))
         # replay file: the events up to and including the offending line (from the last init on)
         with open(trace) as f: L = f.readlines()
         start = max((i for i in range(ln) if L[i].startswith('{"e":"I"')), default=0)
@@ -229,8 +233,10 @@ NAV_STAGES = {
             "thorough": [("nav", _nav(6, 4, "ValsInt1", "NamesAB", "LookAB", "OpsNavE", "RootsOA")),
                          ("nav-mixed-values", _nav(4, 3, "ValsMix", "NamesAB", "LookAB", "OpsNavE", "RootsOA"))]},
     "C03": {"quick":    [("values-names", _nav(2, 2, "ValsAll", "NamesRich", "LookAB", "OpsNav", "RootsOA")),
+                         ("reused-levels-empty-names", _nav(4, 3, "ValsInt1", "NamesE", "LookAB", "OpsWalk", "RootsOA")),
                          ("values-3", _nav(3, 2, "ValsAll", "NamesAB", "LookAB", "OpsWalk", "RootsOA"))],
             "thorough": [("values-names", _nav(3, 3, "ValsAll", "NamesRich", "LookAB", "OpsWalk", "RootsOA")),
+                         ("reused-levels-empty-names", _nav(6, 4, "ValsInt1", "NamesE", "LookAB", "OpsWalk", "RootsOA")),
                          ("values-nest", _nav(3, 3, "ValsAll", "NamesAB", "LookAB", "OpsNav", "RootsOA"))]},
     "C07": {"quick":    [("lookup-structure", _nav(4, 3, "ValsInt1", "NamesAB", "LookAB", "OpsLook", "RootsOA")),
                          ("lookup-names", _nav(3, 2, "ValsInt1", "NamesRich", "LookRich", "OpsLook", "RootsO")),
@@ -331,6 +337,8 @@ def check_safety(prop, tier, replay):
         stages.append(product_stage(prop, name, mod, cfg, c, replayer="replay_writer" if mod == "MC_Writer.tla" else "replay_parser"))
     stages.append(parser_trace_stage(prop, tier))
     if prop == "C16":
+        stages.append(trace_stage(prop, "recorded-large-documents", "record_tostring", "--big --docs %d" % (150 if tier == "quick" else 3000),
+                                  "TraceToString.tla", "TraceToString.cfg", memprop="C13"))
         stages.append(model_stage(prop, "loop-liveness", "MC_Micro.tla", "MC_Micro.cfg",
                                   dict(K=2, MaxD=2, MaxCalls=3, Sigma="SigmaM", Names="NamesM") if tier == "quick" else
                                   dict(K=3, MaxD=2, MaxCalls=3, Sigma="SigmaM", Names="NamesM")))
